@@ -46,7 +46,18 @@ class DispatchingRequestHandler(BaseHTTPRequestHandler):
         return path_elements[1]
 
     def do_POST(self):  # pylint: disable=invalid-name
-        request_bytes = self._read_request()
+        try:
+            request_bytes = self._read_request()
+        except Exception as ex:  # pylint: disable=broad-except
+            # body could not be read (bad framing, unsupported or corrupt content coding): answer instead of
+            # letting the exception end the connection without any response
+            self.server.logger.error('could not read request {} (request from {}): {!r}', self.path, self.client_address, ex)
+            self.close_connection = True  # pylint: disable=attribute-defined-outside-init
+            self.send_response(400, 'could not read request body')
+            self.send_header("Content-type", "text/plain; charset=utf-8")
+            self.send_header("Content-length", "0")
+            self.end_headers()
+            return
         if self.server.dispatcher is None:
             # close this connection
             self.close_connection = True  # pylint: disable=attribute-defined-outside-init
